@@ -123,8 +123,11 @@ def main():
     if ck.thorough:
         lw_cases += [{"kind": "c07.lockwait", "state": st, "read": r, "hold_before_ms": hb, "release_after_ms": ra}
                      for st in ("indexed", "linear") for r in lw_reads for hb, ra in ((250, 30), (300, 120), (600, 700), (800, 1400))]
-    lw_pool = ThreadPoolExecutor(max_workers=1)
+    lw_pool = ThreadPoolExecutor(max_workers=2)
     lw_future = lw_pool.submit(run_lockwait, lr.drv, lw_cases)
+    # a write with a relative ttl that waits for the state lock across a second boundary: memory and storage hold ONE expiry instant
+    ww_cases = [{"kind": "c07.writewait", "state": st, "hold_ms": h} for st in ("indexed", "linear") for h in ((1100,) if not ck.thorough else (700, 1100, 1600, 2100))]
+    ww_future = lw_pool.submit(lambda: run_cases(lr.drv, ww_cases, jobs=len(ww_cases), per_chunk=1))
     impl, model, mc = lr.run(cases, skip_if=clock_ambiguous, nontrivial=lambda c: True, jobs=64)
     # direct statement of the property on the real outputs: nothing whose expiry instant is <= the op's clock is ever returned,
     # and the instant of an item does not move without a write
@@ -183,6 +186,16 @@ def main():
                 ck.violation("%s returned %s after its expiry instant when the storage write of its purge failed (write %d, %s state)" % (op["op"], sorted(seen), c["failAt"], c["state"]),
                              {"case": {kk: (v if kk != "ops" else v[: k + 1]) for kk, v in c.items()}, "impl": r}, tag="purgefault")
                 break
+    for c, o in zip(ww_cases, ww_future.result()):
+        ck.count(c)
+        lr.stats["writewait_cases"] += 1
+        if not isinstance(o, dict) or "mem" not in o or "store" not in o:
+            ck.violation("write-wait scenario failed to run: %s" % canon(o)[:300], {"case": c, "impl": o}, tag="internal")
+            continue
+        if o["mem"] != o["store"]:
+            # (deterministic given the schedule: the write waited %d ms, across a second boundary)
+            ck.violation("a fact written with ttl 1h while another write held the state lock for %s ms: the live state expires it at %s, storage (and a reloaded location) at %s (%s state)" % (
+                c["hold_ms"], o["mem"], o["store"], c["state"]), {"case": c, "impl": o}, tag="writewait")
     # lock-wait scenarios: a read granted the lock after the instant must not return the expired item
     for c, o in zip(lw_cases, lw_future.result()):
         lr.stats["lockwait_cases"] += 1
